@@ -7,6 +7,9 @@ import (
 	"math"
 	"math/rand"
 	"strings"
+	"sync"
+
+	"github.com/onheap/eval"
 )
 
 // ---------------------------------------------------------------------------
@@ -78,6 +81,36 @@ func mkCustom() map[string]*CustomOp {
 			return s + "+", nil
 		}},
 	}
+	// cnest: x + 3, where the 3 is obtained by evaluating another compiled expression on the SAME context
+	// (a rule that evaluates a sub-rule), through TryEval and through Eval
+	ops = append(ops, &CustomOp{Name: "cnest",
+		Fn: func(a []interface{}) (interface{}, error) {
+			if len(a) != 1 {
+				return nil, ErrCustom
+			}
+			x, ok := a[0].(int64)
+			if !ok {
+				return nil, ErrCustom
+			}
+			return x + 3, nil
+		},
+		CtxFn: func(ctx interface{}, a []interface{}) (interface{}, error) {
+			if len(a) != 1 {
+				return nil, ErrCustom
+			}
+			x, ok := a[0].(int64)
+			if !ok {
+				return nil, ErrCustom
+			}
+			c := ctx.(*eval.Ctx)
+			sub := nestedSubExpr()
+			v1, err1 := sub.TryEval(c)
+			v2, err2 := sub.Eval(c)
+			if err1 != nil || err2 != nil || v1 != int64(3) || v2 != int64(3) {
+				return nil, fmt.Errorf("nested evaluation on the same context gave %v/%v and %v/%v instead of 3", v1, err1, v2, err2)
+			}
+			return x + 3, nil
+		}})
 	m := map[string]*CustomOp{}
 	for _, o := range ops {
 		m[o.Name] = o
@@ -90,6 +123,23 @@ func mkCustom() map[string]*CustomOp {
 }
 
 var stdCustom = mkCustom()
+
+var (
+	nestedSubOnce sync.Once
+	nestedSub     *eval.Expr
+)
+
+// nestedSubExpr: (+ 1 (* 1 2)) compiled once without optimizations (so that it really uses an operand stack)
+func nestedSubExpr() *eval.Expr {
+	nestedSubOnce.Do(func() {
+		e, err := eval.Compile(eval.NewConfig(eval.Optimizations(false)), "(+ 1 (* 1 (- 3 1)))")
+		if err != nil {
+			panic(err)
+		}
+		nestedSub = e
+	})
+	return nestedSub
+}
 
 // names declared stateless in StatelessOperators ("sq" is declared but never registered)
 var stdStateless = []string{"sb", "si", "sz", "sfail", "spos", "spick", "ss", "sq", "add"}
@@ -139,7 +189,7 @@ func (g *G) name(canon string) string {
 }
 
 var defaultIntLits = []int64{0, 1, -1, 2, 3, 5, 7, 10, -3, 100, -100}
-var defaultStrPool = []string{"", "a", "b", "kay", "x y", "1.2.3", "zz", "λ", "a+"}
+var defaultStrPool = []string{"", "a", "b", "kay", "x y", "1.2.3", "zz", "λ", "a+", "fi", "if", "DNE"}
 
 func (g *G) intLit() int64 {
 	if g.Extremes && g.p(0.12) {
@@ -526,7 +576,9 @@ func (g *G) Int(d int) *Node {
 			if g.Stateless && g.R.Intn(2) == 0 {
 				pre = "s"
 			}
-			switch g.R.Intn(4) {
+			switch g.R.Intn(5) {
+			case 4:
+				return Op("cnest", TInt, g.Int(d-1))
 			case 0:
 				return Op(pre+"z", TInt)
 			case 1:
@@ -622,7 +674,7 @@ type Stratum struct {
 
 func baseG(r *rand.Rand) *G {
 	return &G{R: r,
-		BoolVars: []string{"b0", "b1", "b2", "b3"}, IntVars: []string{"i0", "i1", "i2"}, StrVars: []string{"s0", "s1"},
+		BoolVars: []string{"b0", "b1", "b2", "b3"}, IntVars: []string{"i0", "i1", "i2", "fi"}, StrVars: []string{"s0", "s1"},
 		IListVars: []string{"li0"}, SListVars: []string{"ls0"}, ISetVars: []string{"seti"}, SSetVars: []string{"sets"},
 		Custom: true, Consts: true, Aliases: true, Lists: true, Encodings: true, MaxArity: 4, Budget: 300}
 }
